@@ -24,7 +24,7 @@ def run(ctx):
     P.validate(ctx, traces, "replay")
 
     # random long schedules, big tick values, random write patterns and priors
-    n = ctx.pick(200, 2500)
+    n = ctx.pick(120, 2500)
     jobs = []
     for k in range(n):
         cfg = P.random_cfg(ctx.rng, max_models=2, max_steps=ctx.pick(24, 64), kinds=("obs", "set", "add", "padd"),
